@@ -17,6 +17,7 @@
        []any        : every element replaced by its reduction
    FromBytes: reduceAny then "unexpected non-map result"           load_model
    dimension.initFlag + lookupEnv                                  select_dim / lookup_env
+   the flag registered by initFlag, once set                       apply_flag
    GetDimension                                                    d_sel
    strings.Split(key, ".") ; extract(m, keys)                      split_dots ; extract
    Get[any] / Get[string] (yaml re-marshal: trusted identity)      get_model / get_str_model
@@ -170,6 +171,15 @@ Definition select_dim (parse : string -> option nat) (dflt : nat)
   match lookup_env env flag_name with
   | None => Ok dflt
   | Some s => match parse s with Some v => Ok v | None => Err end
+  end.
+
+(* flag.Func(name, ..., func(s) { d.parsed, err = ParseGeneric(s); return err }): a later
+   flag.Set / flag.Parse overrides what initFlag chose; an unparsable value leaves the zero
+   value of the enum behind (and an error for the flag package) *)
+Definition apply_flag (parse : string -> option nat) (flag_value : option string) (v : nat) : nat :=
+  match flag_value with
+  | None => v
+  | Some s => match parse s with Some v' => v' | None => 0 end
   end.
 
 (* ---------------------------------------------------------------- Get *)
